@@ -150,7 +150,7 @@ def _syn_sep(x1, x2):
 
 
 class SynChunks(RecChunks):
-    def assign(self, ra, dec, marginSize):
+    def assign(self, ra, dec, marginSize, *args, **kwargs):     # extra arguments of a changed signature are accepted
         cells = SYN['cells']
         self.nDec = 1
         self.nRa = [len(cells)]
@@ -184,19 +184,57 @@ def synthetic(c, record=True):
     return out
 
 
+def history(calls):
+    """several spheregroup calls in THIS process with the unwrapped module; returned arrays are kept and only read after
+    the last call; caller-owned inputs are compared with copies taken before each call"""
+    held = []
+    out = []
+    for c in calls:
+        ra, dec = typed(c)
+        before = (ra.copy(), dec.copy())
+        rows, near = adjacency(ra, dec, float(c['linklength']))
+        r = {'adj': [str(x) for x in rows], 'nearest_threshold_rel': near}
+        kw = {}
+        if c.get('chunksize') is not None:
+            kw['chunksize'] = float(c['chunksize'])
+        try:
+            with warnings.catch_warnings():
+                warnings.simplefilter('ignore')
+                res = SG.spheregroup(ra, dec, float(c['linklength']), **kw)
+            r['immediate'] = [[int(x) for x in a] for a in res]
+            held.append(res)
+        except Exception as e:  # noqa: BLE001
+            r['err'] = type(e).__name__
+            r['msg'] = str(e)[:160]
+            held.append(None)
+        r['inputs_unchanged'] = (ra.tobytes() == before[0].tobytes() and dec.tobytes() == before[1].tobytes())
+        out.append(r)
+    for r, res in zip(out, held):
+        if res is not None:
+            r['ok'] = [[int(x) for x in a] for a in res]
+    return out
+
+
 def main():
     calls = json.load(sys.stdin)
+    if isinstance(calls, dict) and calls.get('mode') == 'history':
+        json.dump({'pydl_file': pydl.__file__, 'histories': [history(h) for h in calls['histories']]}, sys.stdout)
+        return
     if isinstance(calls, dict) and calls.get('mode') == 'screen':
         sus = []
+        inapplicable = False
         for k, c in enumerate(calls['cases']):
             if 'cells' in c:
                 r = synthetic(c, record=False)
+                if r.get('err') == 'TypeError':
+                    inapplicable = True      # signature of the real code changed: the driver glue does not fit
+                    continue
                 bad = 'ok' not in r or r['ok'][0] != py_components([int(x) for x in c['adj']], int(c['n']))
             else:
                 bad = screen(c)
             if bad:
                 sus.append(k)
-        json.dump({'pydl_file': pydl.__file__, 'suspicious': sus, 'n': len(calls['cases'])}, sys.stdout)
+        json.dump({'pydl_file': pydl.__file__, 'suspicious': sus, 'n': len(calls['cases']), 'synthetic_driver_inapplicable': inapplicable}, sys.stdout)
         return
     if isinstance(calls, dict) and calls.get('mode') == 'synthetic':
         json.dump({'pydl_file': pydl.__file__, 'results': [synthetic(c) for c in calls['cases']]}, sys.stdout)
